@@ -215,6 +215,10 @@ def _find_shebang(source):
     """
 
     if isinstance(source, bytes):
+        if source.startswith(b'\xef\xbb\xbf'):
+            # A UTF-8 byte order mark is not part of the first line
+            source = source[3:]
+
         shebang = re.match(br'^#![^\r\n]*', source)
         if shebang:
             return shebang.group().decode()
